@@ -39,6 +39,23 @@ Proof.
     simpl. unfold selecting in H2. rewrite H2. reflexivity.
 Qed.
 
+(* ---------- selectors: nil selects nothing, empty selects everything, invalid selects nothing ---------- *)
+Lemma selects_nil ls : selects ls None = false.
+Proof. reflexivity. Qed.
+
+Lemma selects_empty ls : selects ls (Some []) = true.
+Proof. reflexivity. Qed.
+
+Lemma selects_invalid ls rs : forallb req_valid rs = false -> selects ls (Some rs) = false.
+Proof. intros H. unfold selects, sel_matches. rewrite H. reflexivity. Qed.
+
+Lemma selects_valid ls rs :
+  forallb req_valid rs = true -> selects ls (Some rs) = forallb (req_matches ls) rs.
+Proof.
+  intros H. unfold selects, sel_matches. rewrite H.
+  destruct (forallb (req_matches ls) rs); reflexivity.
+Qed.
+
 (* the value a node gets from a section is the layering of default, cluster and the strategy of
    the FIRST entry whose selector matches (entries before it do not match; later ones are ignored) *)
 Theorem spec_effective_first_match m ls sd c es1 e es2 :
